@@ -94,11 +94,11 @@ static std::vector<int> input_ids(const State& st, int t) {
 struct EbSys {
   typedef ::State State;
   std::vector<OpDef> ops; std::string nm;
-  size_t OP_NEW[NSLOT][4], OP_UPD[NSLOT][3], OP_ML[NSLOT], OP_MR[NSLOT], OP_RES, OP_RIT, OP_SER[NSLOT], OP_SST[NSLOT];
+  size_t OP_NEW[NSLOT][6], OP_UPD[NSLOT][3], OP_ML[NSLOT], OP_MR[NSLOT], OP_RES, OP_RIT, OP_SER[NSLOT], OP_SST[NSLOT];
 
   EbSys(): nm("stream") {
     const char* SN = "ABC"; const char* sn = "abc";
-    for (int s = 0; s < NSLOT; ++s) for (int k = 1; k <= 3; ++k) { OP_NEW[s][k] = ops.size(); add(K_NEW, s, k, std::string(1, SN[s]) + str(k)); }
+    for (int s = 0; s < NSLOT; ++s) for (int k = 1; k <= 5; ++k) { OP_NEW[s][k] = ops.size(); add(K_NEW, s, k, std::string(1, SN[s]) + str(k)); }   // k 4, 5 only in the merge-special pairs
     for (int s = 0; s < NSLOT; ++s) for (int w = 0; w < 3; ++w) { OP_UPD[s][w] = ops.size(); add(K_UPD, s, w, std::string(1, sn[s]) + str((int)WEIGHTS[w])); }
     for (int s = 1; s < NSLOT; ++s) { OP_ML[s] = ops.size(); add(K_MERGE_L, s, 0, std::string("Ml") + SN[s]); OP_MR[s] = ops.size(); add(K_MERGE_R, s, 0, std::string("Mr") + SN[s]); }
     OP_RES = ops.size(); add(K_RES, 0, 0, "res");
@@ -721,6 +721,22 @@ static void add_tasks(std::vector<Task>& tasks, const Config& cfg, const bool q,
     Task t; t.name = pre + "merge/A" + str(i) + "-" + A.label();
     t.fn = [A, menu, max_n, deep_post_n, q, &cfg](Report& rep) { Explorer ex(rep, cfg, GRID, q); ex.run_merges(A, menu, max_n, deep_post_n); };
     tasks.push_back(t);
+  }
+  // pairs outside the size bound of the menu, chosen for the regime they reach: the lighter operand (by cumulative weight) carries a
+  // partial item AND the heaviest weight, and the merged C stays below k (needs k >= 4 with weights from {1,2,4})
+  {
+    const int sp[][2][6] = {
+      {{4, 0, 0, 0, 0, -1}, {4, 0, 1, -1, -1, -1}},     // k4 [1,1,1,1] <-> k4 [1,2]     W = 4 + 3, wmax 2, C = 3.5
+      {{4, 0, 0, 0, 0, -1}, {4, 1, 0, -1, -1, -1}},     // k4 [1,1,1,1] <-> k4 [2,1]
+      {{5, 1, 1, 1, 1, -1}, {4, 2, 1, -1, -1, -1}},     // k5 [2,2,2,2] <-> k4 [4,2]     W = 8 + 6, wmax 4, C = 3.5, unequal k
+    };
+    for (int i = 0; i < (q ? 2 : 3); ++i) for (int dir = 0; dir < 2; ++dir) {
+      Operand A, B; Operand* o[2] = {&A, &B};
+      for (int s2 = 0; s2 < 2; ++s2) { o[s2]->k = sp[i][s2 ^ dir][0]; for (int j = 1; j < 6 && sp[i][s2 ^ dir][j] >= 0; ++j) o[s2]->w.push_back(sp[i][s2 ^ dir][j]); }
+      Task t; t.name = pre + "merge-special/" + A.label() + "<-" + B.label();
+      t.fn = [A, B, q, &cfg](Report& rep) { Explorer ex(rep, cfg, GRID, q); ex.merge_pair(A, B, 1, false); ex.finish("merge " + A.label() + " <- " + B.label() + " (lighter operand holds the partial item and the heaviest weight), lvalue and rvalue, then 1 further update"); };
+      tasks.push_back(t);
+    }
   }
   // chains (A.merge(B)).merge(C) over the short operands
   {
